@@ -357,7 +357,7 @@ func importKnown(c ImportCase) string {
 			return "C12-import-prelayer-under-layer"
 		}
 	}
-	// C12-import-dedupe-across-layers: a file is reached more than once, at least once below a layer(...) import, and its rules are layer-sensitive
+	// C12-import-dedupe-across-layers: a file is reached more than once, at least once below a layer(...) import
 	// C12-import-dup-anonymous-block: a file reached more than once contains an anonymous "@layer {" block
 	{
 		parsed := map[string]*cssref.Sheet{}
@@ -411,7 +411,7 @@ func importKnown(c ImportCase) string {
 			if anon {
 				return "C12-import-dup-anonymous-block"
 			}
-			if layered[f] >= 1 && (strings.Contains(c.Files[f], "!important") || strings.Contains(c.Files[f], "@layer")) {
+			if layered[f] >= 1 {
 				return "C12-import-dedupe-across-layers"
 			}
 		}
@@ -421,7 +421,9 @@ func importKnown(c ImportCase) string {
 
 // ----------------------------------------------------------------------------- generator
 
-var importSelectors = []string{".a", ".b", "p", "div", ".a.b", "p.a", "#x", "span", ".c"}
+// the first entries are drawn most often (rapid favours small indices): equal-specificity selectors that overlap on
+// multi-class elements, so that the order of files decides the winner
+var importSelectors = []string{".a", ".b", ".c", ".a", "p", "div", ".a.b", "p.a", "#x", "span"}
 var importMedia = []string{"screen", "print", "(min-width: 600px)", "(max-width: 599px)", "screen and (min-width: 400px)", "(width >= 800px)"}
 var importSupports = []string{"(display: grid)", "display: grid", "not (display: grid)", "(display: flex) and (gap: 1px)", "display: flex"}
 var importLayers = []string{"l1", "l2", "l1.s", "l3"}
@@ -434,6 +436,10 @@ func genImportCase(rt *rapid.T) ImportCase {
 	}
 	pick := func(xs []string) string { return xs[k(len(xs)-1)] }
 	nfiles := 5 - k(3) // rapid favours small draws: mostly 4–5 files
+	family := 1 + k(5) // 1 diamond; 2 repeated import; 3 cycle; otherwise random edges
+	if family > 3 {
+		family = 0
+	}
 	files := map[string]string{}
 	marker := 100
 	shared := []string{".a { opacity: .5 }", "p { opacity: .25 }", "@layer l1 { .a { opacity: .75 } }"}
@@ -446,16 +452,49 @@ func genImportCase(rt *rapid.T) ImportCase {
 			}
 			sb.WriteString(";\n")
 		}
-		nimp := k(3)
-		if f == 0 && nimp == 0 {
-			nimp = 2
+		// import targets: a named graph family or random edges
+		var targets []int
+		switch {
+		case family == 1: // diamond: 0 -> 1, 2; 1 -> 3; 2 -> 3 (node 3 = last file)
+			switch f {
+			case 0:
+				targets = []int{1, 2 % nfiles}
+			case 1, 2:
+				targets = []int{nfiles - 1}
+			}
+		case family == 2: // the same file imported around another one: 0 -> 1, 2, 1
+			if f == 0 {
+				targets = []int{1, 2 % nfiles, 1}
+			} else if f == 1 && nfiles > 3 {
+				targets = []int{3}
+			}
+		case family == 3: // cycle through the entry: 0 -> 1 -> 2 -> 0 plus a shared leaf
+			switch f {
+			case 0:
+				targets = []int{1, nfiles - 1}
+			case 1:
+				targets = []int{2 % nfiles, nfiles - 1}
+			case 2:
+				targets = []int{0}
+			}
+		default:
+			nimp := k(3)
+			if f == 0 && nimp == 0 {
+				nimp = 2
+			}
+			for i := 0; i < nimp; i++ {
+				// mostly forward edges (diamonds, repeated imports); one import in eight may point anywhere (cycles, self-imports)
+				target := f + 1 + k(nfiles-1)%(nfiles-f)
+				if k(7) == 7 {
+					target = k(nfiles - 1)
+				} else if target >= nfiles {
+					continue
+				}
+				targets = append(targets, target)
+			}
 		}
-		for i := 0; i < nimp; i++ {
-			// mostly forward edges (diamonds, repeated imports); one import in five may point anywhere (cycles, self-imports)
-			target := f + 1 + k(nfiles-1)%(nfiles-f)
-			if k(7) == 7 {
-				target = k(nfiles - 1)
-			} else if target >= nfiles {
+		for _, target := range targets {
+			if target == f && family != 0 {
 				continue
 			}
 			form := pick([]string{`"./f%d.css"`, `url(f%d.css)`, `url("./f%d.css")`, `"f%d.css"`})
@@ -467,10 +506,10 @@ func genImportCase(rt *rapid.T) ImportCase {
 			case lk == 19 && target > f:
 				sb.WriteString(" layer") // anonymous: known finding C12-import-anonymous-layer
 			}
-			if k(9) < 2 {
+			if k(9) >= 8 {
 				sb.WriteString(" supports(" + pick(importSupports) + ")")
 			}
-			if k(9) < 3 {
+			if k(9) >= 7 {
 				sb.WriteString(" " + pick(importMedia))
 			}
 			sb.WriteString(";\n")
